@@ -314,14 +314,9 @@ fn main() {
         let len = xs.len();
         let v = views(xs);
         let nulls = xs.iter().filter(|x| x.is_none()).count();
-        let dq_f: VecDeque<f64> = {
-            // ring buffer with a non-zero head offset
-            let mut d: VecDeque<f64> = VecDeque::with_capacity(len + 3);
-            d.push_back(0.0); d.push_back(0.0); d.pop_front(); d.pop_front();
-            d.extend(v.f.iter().cloned());
-            d
-        };
-        let dq_zo: VecDeque<Option<i32>> = v.zo.iter().cloned().collect();
+        // ring buffers that have wrapped (vh::wrapped_deque)
+        let dq_f: VecDeque<f64> = vh::wrapped_deque(&v.f);
+        let dq_zo: VecDeque<Option<i32>> = vh::wrapped_deque(&v.zo);
         // configurations: (w, mp) list; batch = all of them in one case
         let wmps: Vec<(usize, Option<usize>)> = if *small { vec![(0, None)] } else {
             (0..3).map(|j| {
@@ -447,7 +442,7 @@ fn main() {
         let xo_coq = coq_list(&xo, |x| coq_opt(x, |v| coq_f64(*v)));
         let w = rng.range(1, len as i64 + 2) as usize;
         let mp = if rng.chance(1, 4) { None } else { Some(rng.range(0, w as i64) as usize) };
-        let dq: VecDeque<f64> = xs.iter().cloned().collect();
+        let dq: VecDeque<f64> = vh::wrapped_deque(&xs);
         for fi in 0..8 {
             let tags = |ty: &str, be: &str| format!("fn={} ty={} be={} kind=single len={} wrel={} style=hostile nulls=p12",
                 FNS[fi], ty, be, len, if w > len { "gt" } else if w == len { "eq" } else { "lt" });
